@@ -85,7 +85,12 @@ func renderTyped(obj slip.Object) string {
 	return b.String()
 }
 
+type renderLimit struct{}
+
 func renderTo(b *strings.Builder, obj slip.Object, typed bool) {
+	if 1<<16 < b.Len() {
+		panic(renderLimit{})
+	}
 	switch to := obj.(type) {
 	case slip.List:
 		if len(to) == 0 {
@@ -254,6 +259,15 @@ func runSlip(forms []*ref.V, compile, typed bool) (o outcome) {
 	if typed {
 		rf = renderTyped
 	}
+	defer func() {
+		if r := recover(); r != nil {
+			if _, ok := r.(renderLimit); !ok {
+				panic(r)
+			}
+			o.vals = nil
+			o.err = &sl.Err{Class: "value-too-large", Msg: "the returned value prints to more than 64 KiB"}
+		}
+	}()
 	if vs, ok := result.(slip.Values); ok {
 		for _, v := range vs {
 			o.vals = append(o.vals, strings.ReplaceAll(rf(v), suffix, ""))
@@ -284,6 +298,15 @@ func runRef(forms []*ref.V, typed bool) (e expected) {
 	e.notes = ev.NoteList()
 	e.trace = ev.Trace
 	if err == nil {
+		defer func() {
+			if r := recover(); r != nil {
+				if le, ok := r.(*ref.Error); ok {
+					e.err = le
+					return
+				}
+				panic(r)
+			}
+		}()
 		for _, v := range vals {
 			if typed {
 				e.vals = append(e.vals, typedRef(v))
@@ -948,7 +971,6 @@ var knownBroken = map[string]brokenInfo{
 	"do-test-atom":                   {prio: 1, hang: true},
 	"do*-test-atom":                  {prio: 1, hang: true},
 	"values-0":                       {prio: 2, probe: "(list 1 (values))"},
-	"funcall-0":                      {prio: 3, probe: "(funcall (lambda () (vtr 1 7)))"},
 	"mapcar-empty-list":              {prio: 4, probe: "(mapcar #'1+ nil)"},
 	"cond-test-only":                 {prio: 5, probe: "(cond ((vtr 1 3)))"},
 	"mv-through:progn":               {prio: 6, probe: "(multiple-value-list (progn (vtr 1) (values 1 2)))"},
@@ -961,6 +983,12 @@ var knownBroken = map[string]brokenInfo{
 	"mv-into:or":                     {prio: 7, probe: "(or (values nil) (vtr 1 13))"},
 	"mv-into:let-init":               {prio: 7, probe: "(let ((x (values 1 2))) (multiple-value-list x))"},
 	"mv-into:let*-init":              {prio: 7, probe: "(let* ((x (values 1 2))) (multiple-value-list x))"},
+	"mv-into:dolist-list":            {prio: 7, probe: "(dolist (x (values (list 1 2) 3)) (vtr 1 x))"},
+	"mv-into:dotimes-count":          {prio: 7, probe: "(dotimes (i (values 2 9)) (vtr 1 i))"},
+	"mv-into:do-init":                {prio: 7, probe: "(do ((i 0 (1+ i)) (b (values 5 6) b)) ((>= i 1) (multiple-value-list b)))"},
+	"mv-into:do-step":                {prio: 7, probe: "(do ((i 0 (1+ i)) (b 5 (values i 6))) ((>= i 1) (multiple-value-list b)))"},
+	"mv-into:do*-init":               {prio: 7, probe: "(do* ((i 0 (1+ i)) (b (values 5 6) b)) ((>= i 1) (multiple-value-list b)))"},
+	"mv-into:do*-step":               {prio: 7, probe: "(do* ((i 0 (1+ i)) (b 5 (values i 6))) ((>= i 1) (multiple-value-list b)))"},
 	"mv-into:mapcar-result":          {prio: 7, probe: "(mapcar (lambda (a) (values a 2)) (list 1))"},
 	"lambda-call-bare-free-variable": {prio: 9, probe: "(funcall (lambda (a) ((lambda (b) a) 1)) 7)"},
 	"quote-shorthand-in-data":        {prio: 20, probe: "(quote (a 'b))"},
@@ -1041,7 +1069,7 @@ func counts(tier string) (nProbe, nTmpl, nQuote, nProg int) {
 	if tier == "thorough" {
 		return nProbe, len(tmplTable) * 4, 20000, 400000
 	}
-	return nProbe, len(tmplTable), 1500, 6000
+	return nProbe, len(tmplTable), 3000, 24000
 }
 
 func nCases(tier string) int {
